@@ -26,6 +26,7 @@ RULE = (
     ' Round 5: senders may set the ack flag.'
     ' Round 6: `keys=collide` (ids whose digits concatenate equally) and `prior` (earlier quiet wakes already delivered the racing values).'
     ' Round 7: `reuse` senders re-send the object an earlier wake delivered.'
+    ' Round 8: `keys=types` (cover up/down/stop), `listener=persistent`.'
 )
 ASSUMPTIONS = [
     "suspension points of send/flush are transport writes (plus whatever the loop needs to settle: a schedule step waits until six loop iterations pass without progress)",
